@@ -84,6 +84,12 @@ async def scenario(hist, nsess):
                     if u in tracked and (u not in seen_by or not seen_by[u]):
                         errors.append(f'{where}: uid {u} was never \\Recent for a read-write selection and is not for '
                                       f'this first one either')
+        elif k == 'sel-fail':
+            # a SELECT that fails (NO): the connection has nothing selected afterwards, its old selection must not go on
+            # taking the \\Recent of later deliveries
+            i = op[1]
+            await sess[i].cmd(b'SELECT Nope')
+            mode[i] = None
         elif k == 'close':
             i = op[1]
             if mode[i] is not None:
@@ -158,7 +164,7 @@ def _worker(args):
 
 def histories(tier, seed):
     ops2 = [('sel', 0), ('exa', 0), ('close', 0), ('sel', 1), ('exa', 1), ('close', 1), ('append',), ('copy',),
-            ('append-recent',), ('store', 0), ('copy-ro',), ('own-append', 0), ('own-copy', 0)]
+            ('append-recent',), ('store', 0), ('copy-ro',), ('own-append', 0), ('own-copy', 0), ('sel-fail', 0)]
     n = 3 if tier == 'quick' else 4
     for h in itertools.product(ops2, repeat=n):
         if any(o[0] in ('sel', 'exa') for o in h):
